@@ -94,7 +94,7 @@ def run(ctx):
         pool = gen_cat.universe(atoms[:12], 2)
         feats = [a.feature for a in atoms]
         pats = G.EN_PATTERNS if lang == 'en' else G.JA_PATTERNS
-        pairs[lang] += [(x, y) for _, _, x, y in G.pattern_pairs(rng, pats, pool, feats, n // 2)]
+        pairs[lang] += [(x, y) for _, _, x, y in G.pattern_pairs(rng, pats, pool, feats, n // 2, deep=gen_cat.deep_pool(lang, rng))]
     for a, b in conflict_family(rng, ctx.budget(300, 3000)):
         pairs['en'].append((Category.parse(a), Category.parse(b)))
     # closure: results of rule application recombined
@@ -179,12 +179,25 @@ def run(ctx):
             if gated != (free if key in Ssig else 'ok 0'):
                 ctx.fail('seen-rule gate: result is neither unrestricted nor empty as the set prescribes', desc, fingerprint=['seen'] + desc)
 
+    # an empty seen-rule collection is a filter too: nothing is in it, so nothing may fire
+    setup_lines.append(('setup', G.set_seen_line('empty', []), 'ok', 'empty'))
+    for lang, mod in (('en', en), ('ja', ja)):
+        for x, y in rng.sample(pairs[lang], min(len(pairs[lang]), 300)):
+            for empty in (set(), frozenset()):
+                _, gated = G.call_rules(mod.apply_binary_rules, x, y, seen_rules=empty)
+                ctx.evaluations += 1
+                if gated != 'ok 0':
+                    ctx.fail('with an empty seen-rule set a rule fired (the pair is not in the set)', [lang, canonical(x), canonical(y)],
+                             fingerprint=['seen-empty', lang])
+            cases.append((lang + '_bin', f'{lang}_bin empty {enc_cat(x)} {enc_cat(y)}', gated, [lang, canonical(x), canonical(y), 'empty seen set']))
     # ---- unary rules --------------------------------------------------------------------------
     for lang, mod in (('en', en), ('ja', ja)):
         tbls = {'ship': G.unary_table(lang)}
         syn = {}
+        # Japanese unary steps are defined on categories whose result atom carries a feature triple
+        lhs_pool = [c for c in inv[lang] if lang == 'en' or hasattr(c.arg(0).feature, 'items')]
         for _ in range(30):
-            k = rng.choice(inv[lang])
+            k = rng.choice(lhs_pool)
             syn.setdefault(k, [])
             for _ in range(rng.randint(1, 3)):
                 syn[k].append(rng.choice(inv[lang]))
@@ -195,7 +208,7 @@ def run(ctx):
         for name, tbl in tbls.items():
             setup_lines.append(('setup', G.set_unary_line(f'{name}_{lang}', tbl), 'ok', lang))
             tsig = {sig(k): [sig(v) for v in vs] for k, vs in tbl.items()}
-            probes = list(tbl.keys()) + rng.sample(inv[lang], 150) + [gen_cat.perturb(rng, k, [a.feature for a in (en_atoms if lang == 'en' else ja_atoms)]) for k in tbl.keys()]
+            probes = list(tbl.keys()) + rng.sample(lhs_pool, 150) + [gen_cat.perturb(rng, k, [a.feature for a in (en_atoms if lang == 'en' else ja_atoms)]) for k in tbl.keys()]
             for x in probes:
                 desc = [lang, name, canonical(x)]
                 sx = sig(x)
